@@ -37,7 +37,8 @@ def run(ctx):
         "rule": "spec/FluentNames.tla!Generate: (N) all unordered pairs of programs (one or two of map{two lambdas, two defs "
                 "called f, partials with equal/different arguments} / add scalar / sum) over a shared source; (P) the same binary operation with swapped operands (a.op(b) / "
                 "b.op(a) for add, subtract, multiply, divide, power) and reduce(f) over the join of three actions in every pair of "
-                "orders; (S) pairs of "
+                "orders; (H) one Payload object handed to two operations (reduce over 2 / 4 inputs, batched reduce with uneven "
+                "batches, map) and to both builds; (S) pairs of "
                 "sources from those callables created by one or two from_source calls; (O) receiver in {A, A.map, D} x one or "
                 "two operations from {add, subtract, multiply, divide, power, join (match / no match / along x), broadcast} with "
                 "operands whose coordinates differ, and {map, add scalar, sum, sum keep_dim, mean, select, isel, stack, "
